@@ -46,6 +46,7 @@ import Purr.Lemmas.RtcCor
 import Purr.Lemmas.RtcRing
 import Purr.Lemmas.NormL
 import Purr.Lemmas.LoopRecL
+import Purr.Props.C02
 namespace Purr.C01
 open Purr Purr.Spec
 
@@ -226,5 +227,42 @@ theorem wellformed_nonempty_events (g : Graph) (a : Atom) (rest : Graph) (hg : g
   simp only [List.length_cons, List.range_succ_eq_map, compLoop]
   simp only [List.contains_nil, Bool.false_eq_true, if_false, List.getElem?_cons_zero]
   split <;> simp
+
+/-- an accepted string has at least one atom, so its graph is not empty -/
+theorem accepted_graph_nonempty (s : Str) (g : Graph) (hr : (read s).2 = .ok)
+    (hb : build? (read s).1 = some (.ok g)) : ∃ a rest, g = a :: rest := by
+  have hc : ConformantNE (read s).1 := C09.accepted_conformantNE (s := s) (es := (read s).1) (by rw [← hr])
+  have hk := C02.atoms_in_order _ g hb
+  obtain ⟨n, hn⟩ := hc
+  cases hes : (read s).1 with
+  | nil => rw [hes] at hn; simp [protoRun] at hn
+  | cons e es =>
+    rw [hes] at hn hk
+    cases e with
+    | root k =>
+      simp only [atomKinds] at hk
+      cases g with
+      | nil => simp at hk
+      | cons a rest => exact ⟨a, rest, rfl⟩
+    | extend b k => simp [protoRun, stepProto] at hn
+    | join b r => simp [protoRun, stepProto] at hn
+    | pop d => simp [protoRun, stepProto] at hn
+
+/-- THE ROUND TRIP OF A STRING (the first quantifier of the property): for every string the reader accepts whose
+    graph builds, if the traversal of that graph ends with `ok` (the only alternative is D17, by
+    `walk_ok_or_pool_exhausted`), the text written from it is accepted again and builds a graph isomorphic to the
+    first one. -/
+theorem roundtrip_string (s : Str) (g : Graph) (hr : (read s).2 = .ok) (hb : build? (read s).1 = some (.ok g))
+    (hok : (walk g).2 = .ok) :
+    ∃ t g' π, write? (walk g).1 = some t ∧ (read t).2 = .ok ∧ build? (read t).1 = some (.ok g') ∧ Iso g g' π := by
+  have hw := C10.read_build_wellformed s g hr hb
+  obtain ⟨a, rest, hg⟩ := accepted_graph_nonempty s g hr hb
+  exact roundtrip_walk g hw hok (wellformed_nonempty_events g a rest hg hw)
+
+/-- … and that graph is itself either written or stopped by D17 only: reading never produces a graph the
+    traversal refuses -/
+theorem string_graph_walk_verdict (s : Str) (g : Graph) (hr : (read s).2 = .ok) (hb : build? (read s).1 = some (.ok g)) :
+    (walk g).2 = .ok ∨ (walk g).2 = .panic "join_pool.rs:rnum" :=
+  walk_ok_or_pool_exhausted g (C10.read_build_wellformed s g hr hb)
 
 end Purr.C01
